@@ -1066,6 +1066,7 @@ impl<const V: usize> Exec<V> {
                 let m = (*m as usize * MAX_MUTATORS) >> 8;
                 self.destroy(m);
             }
+            Op::CheckSideSpecs { seed } => super::probes::check_side_specs(self, *seed),
             Op::ForkCycle => self.fork_cycle(),
             Op::ForkDuringGc { m } => {
                 if self.is_nogc {
